@@ -1,2 +1,7 @@
 import connspec
 SPEC = connspec.spec('C11', 'check_C11', {50: 'connection_end_reported_twice', 51: 'connection_end_not_reported', 52: 'connection_end_never_reported_after_transport_loss'}, 'Theorem (Coq), connection level: on every run HandleConnectionClosed is reported at most once, and whenever the data connection has been closed (by any path: local close, peer announce/confirm, transport error, handshake error/abort, deferred close) it has been reported - for all coincidences of close causes as event orders. Proof: certified closure. Tie: differential runs incl. all pairs of close causes in both orders (directed) and random ones; monitor on implementation traces. The hub-level half (registry removal of the identical object only, per-SKI notification consistency) is decided on the hub model together with C05/C10.')
+
+# hub-level half: the hub-model case stream of C10 (real hub.Hub, see checks/C10.py), projected to this property
+SPEC["streams"] = [dict(imports="From Ship Require Import Base HubModel HubStreams.", case_type="c10_case", check_fn="check_hub_C11",
+                        drivers=[dict(bin="hubunit", args=["-prop", "C10"], n_quick=800, n_thorough=20000, timeout=2400)], codes={115: "close_report_removed_wrong_registry_entry", 116: "disconnect_notification_missing_or_repeated"})]
+SPEC["props_extra"] = ["props/C11_hub.v"]
